@@ -1097,6 +1097,88 @@ func TestSlotSweep(t *testing.T) {
 	vh.Exhaustive("parsers", fmt.Sprintf("slot sweep: %d small bundles, every length/count/offset field x %d hostile values and +-1, every truncation length: %d inputs to bundle.Read", len(asms), len(hostile), n))
 }
 
+// variantsShape builds a variants-value with the given number of values per axis.
+func variantsShape(axes []int) string {
+	var sb strings.Builder
+	for i, n := range axes {
+		if i > 0 {
+			sb.WriteString(", ")
+		}
+		fmt.Fprintf(&sb, "h%d", i)
+		for j := 0; j < n; j++ {
+			fmt.Fprintf(&sb, ";v%d", j)
+		}
+	}
+	return sb.String()
+}
+
+func repeatInt(v, n int) []int {
+	out := make([]int, n)
+	for i := range out {
+		out[i] = v
+	}
+	return out
+}
+
+// TestVariantsSweep: b1 index entries whose variants-value has so many axes that the NUMBER OF
+// POSSIBLE KEYS - a product of legal per-axis counts - passes 10000, 2^31, 2^32, 2^63 or 2^64,
+// each with every hostile value in the entry's array-count field, and with the counts that are
+// CONSISTENT with the product under wrapped 64-bit arithmetic (2*n+1, n the wrapped product):
+// a derived quantity that overflows can become small, zero or negative and then agree with a
+// small declared count.
+func TestVariantsSweep(t *testing.T) {
+	shapes := [][]int{{2}, {3, 3, 3}, repeatInt(2, 13), repeatInt(2, 14), {10001}, {100, 100}, {101, 100}, repeatInt(2, 31), repeatInt(2, 32), repeatInt(2, 33),
+		repeatInt(2, 62), repeatInt(2, 63), repeatInt(2, 64), repeatInt(2, 65), repeatInt(4, 16), repeatInt(4, 32), repeatInt(8, 21), repeatInt(16, 16), repeatInt(3, 40), repeatInt(3, 41),
+		repeatInt(5, 28), repeatInt(7, 23), append(repeatInt(2, 63), 3), append(repeatInt(2, 62), 3), {65536, 65536, 65536, 32768}, {65536, 65536, 65536, 65536}, {1, 1, 1}, {0}, {}}
+	n := 0
+	for _, shape := range shapes {
+		prod := int64(1) // wrapped, as a careless implementation computes it
+		for _, k := range shape {
+			prod *= int64(k)
+		}
+		vv := variantsShape(shape)
+		if len(vv) > 1<<21 {
+			continue
+		}
+		for _, wide := range []bool{false, true} {
+			a := refbundle.Asm{Version: "b1", Wide: wide, HeaderURL: "https://a.example/"}
+			a.Resps = []refbundle.AsmResp{
+				{Fields: []refbundle.HeaderField{{Name: ":status", Value: "200"}, {Name: "variants", Value: vv}, {Name: "variant-key", Value: "v0"}}, BodyLen: 5, BodyTag: 1},
+				{Fields: []refbundle.HeaderField{{Name: ":status", Value: "200"}}, BodyLen: 3, BodyTag: 2},
+			}
+			a.Index = []refbundle.AsmIndex{{URL: "https://a.example/a", Resps: []int{1}}, {URL: "https://a.example/neg", Variants: vv, Resps: []int{0, 1}}}
+			a.Sections = []refbundle.AsmSection{{Name: "index", Kind: "index", Decoy: -1}, {Name: "manifest", Kind: "manifest", Text: "https://a.example/m", Decoy: -1},
+				{Name: "responses", Kind: "responses", Decoy: -1}}
+			file, slots := refbundle.Assemble(&a)
+			for _, sl := range slots {
+				if sl.Name != "index[1].arr" {
+					continue
+				}
+				vals := append([]uint64{}, hostile...)
+				for d := uint64(0); d <= 9; d++ {
+					vals = append(vals, d)
+				}
+				w := uint64(prod)
+				vals = append(vals, 2*w+1, 2*w, 2*w+2, 2*w+3, w, w+1, 2*(w&0xffffffff)+1, 2*uint64(int64(int32(w)))+1)
+				for _, v := range vals {
+					if sl.Width == 0 && v >= 24 {
+						continue
+					}
+					n++
+					if !prop.One(t, Case{Target: "bundle.Read", Input: refbundle.Patch(file, sl, v), Origin: "variants-sweep"}) {
+						return
+					}
+				}
+			}
+			n++
+			if !prop.One(t, Case{Target: "bundle.Read", Input: file, Origin: "variants-sweep"}) {
+				return
+			}
+		}
+	}
+	vh.Exhaustive("parsers", fmt.Sprintf("variants sweep: %d variants-values whose number of possible keys passes 10000 / 2^31 / 2^32 / 2^63 / 2^64, narrow and 8-byte heads, entry array count = every hostile value, 0..9 and the counts consistent with the wrapped product: %d inputs to bundle.Read", len(shapes), n))
+}
+
 // TestStatusSweep: validly signed exchanges with EVERY status code -1..1100 (and a few larger
 // ones), with no explicit freshness, with Expires, with max-age: Verify must return (never
 // panic), whatever it decides. The statuses are what an attacker-chosen but correctly signed
